@@ -7,6 +7,7 @@ import (
 	"encoding/json"
 	"errors"
 	"fmt"
+	"math"
 	"net/url"
 	"os"
 	"os/exec"
@@ -15,6 +16,7 @@ import (
 	"strconv"
 	"strings"
 	"sync"
+	"sync/atomic"
 	"syscall"
 	"testing"
 	"time"
@@ -108,9 +110,19 @@ type Kill struct {
 	DelayUs   int `json:"delayUs,omitempty"`
 }
 
+// nanN: for map stores, the number NaN - a value that JSON cannot encode.
+const nanN = 99
+
+func unencodable(w Workload, op Op) bool {
+	return w.Kind == "map" && op.N == nanN && (op.K == "create" || op.K == "update" || op.K == "upd2")
+}
+
 func value(kind, a string, n int) interface{} {
 	switch kind {
 	case "map":
+		if n == nanN {
+			return map[string]interface{}{"a": a, "n": math.NaN()}
+		}
 		if a == "" {
 			return map[string]interface{}{"n": n} // a value that lacks the indexed field
 		}
@@ -162,6 +174,9 @@ type env struct {
 	db *badger.DB
 	st *badgerstore.Store
 	qs *badgerstore.QueryStore
+	// keyHook, when set, is called (once, then cleared) the next time an index Key function
+	// runs: something that happens while RebuildIndexes or an index update is under way
+	keyHook atomic.Pointer[func()]
 }
 
 func openEnv(dir string, w Workload) (*env, error) {
@@ -188,11 +203,17 @@ func openEnv(dir string, w Workload) (*env, error) {
 		}
 		return iq, nil
 	})
+	e := &env{db: db, st: st, qs: qs}
 	for _, name := range w.Indexes {
 		name := name
-		qs.AddIndex(badgerstore.Index{Name: name, Key: func(v interface{}) []byte { return indexKey(name, v) }})
+		qs.AddIndex(badgerstore.Index{Name: name, Key: func(v interface{}) []byte {
+			if h := e.keyHook.Swap(nil); h != nil {
+				(*h)()
+			}
+			return indexKey(name, v)
+		}})
 	}
-	return &env{db: db, st: st, qs: qs}, nil
+	return e, nil
 }
 
 func (e *env) apply(w Workload, op Op) error {
@@ -481,6 +502,9 @@ func (s state) clone() state {
 
 // step applies op to s; ok=false when the op fails in that state.
 func step(w Workload, s state, op Op) (state, bool) {
+	if unencodable(w, op) {
+		return s, false
+	}
 	n := s.clone()
 	switch op.K {
 	case "init":
@@ -804,7 +828,7 @@ func genWorkload() *rapid.Generator[Workload] {
 	return rapid.Custom(func(t *rapid.T) Workload {
 		w := Workload{Prefix: rapid.SampledFrom([]string{"", "pfx"}).Draw(t, "prefix"), Kind: rapid.SampledFrom([]string{"typed", "map", "binary"}).Draw(t, "kind")}
 		w.Indexes = rapid.SampledFrom([][]string{{"ia"}, {"ia", "in"}}).Draw(t, "indexes")
-		ids := []string{"1", "2", "px", "k", "f1"} // some ids start with characters of the prefix "pfx."
+		ids := []string{"1", "2", "px", "k", "f1", "$me"} // some ids start with characters of the prefix "pfx." or of the init marker
 		as := []string{"a", "b", "ab", "", "a~", "~"}
 		ns := rapid.IntRange(0, 3).Draw(t, "nseeds")
 		seen := map[string]bool{}
@@ -836,6 +860,9 @@ func genWorkload() *rapid.Generator[Workload] {
 					op.ID = rapid.SampledFrom(ids).Draw(t, "id")
 					op.A = rapid.SampledFrom(as).Draw(t, "a")
 					op.N = rapid.IntRange(0, 9).Draw(t, "n")
+					if w.Kind == "map" && rapid.IntRange(0, 11).Draw(t, "nan") == 0 {
+						op.N = nanN // a value JSON cannot encode: the write fails and changes nothing
+					}
 				}
 				ops = append(ops, op)
 			}
@@ -1161,6 +1188,86 @@ func TestInitRace(t *testing.T) {
 		}
 		_, raceOK := step(w, s0, race)
 		ev.Case(raceOK || raceErr == nil, evid.Hash("race", w.String(), fmt.Sprint(pre), race), "init-race:"+race.K, fmt.Sprintf("init-err=%v", initErr != nil))
+	})
+}
+
+// TestRebuildRace: a write from another goroutine (and its index update) lands while
+// RebuildIndexes is scanning the stored values (the index Key function is the hook). The
+// rebuild either fails - then it is called again - or succeeds; once it has succeeded every
+// index query agrees with the stored values.
+func TestRebuildRace(t *testing.T) {
+	rapid.Check(t, func(rt *rapid.T) {
+		ids := []string{"1", "2", "px", "f1"}
+		as := []string{"a", "b", "ab", ""}
+		w := Workload{Prefix: rapid.SampledFrom([]string{"", "pfx"}).Draw(rt, "prefix"), Kind: rapid.SampledFrom([]string{"typed", "map"}).Draw(rt, "kind"), Indexes: []string{"ia", "in"}}
+		dir := bdb.TempDir("c12rebuild")
+		defer os.RemoveAll(dir)
+		e, err := openEnv(dir, w)
+		if err != nil {
+			rt.Fatalf("VERIF-INCONCLUSIVE: %v", err)
+		}
+		defer func() { _ = e.db.Close() }()
+		for _, id := range ids {
+			if rapid.IntRange(0, 4).Draw(rt, "present") > 0 {
+				if err := e.apply(w, Op{K: "create", ID: id, A: rapid.SampledFrom(as).Draw(rt, "a"), N: rapid.IntRange(0, 9).Draw(rt, "n")}); err != nil {
+					rt.Fatalf("create %s: %v", id, err)
+				}
+			}
+		}
+		e.qs.Flush()
+		nrace := rapid.IntRange(1, 3).Draw(rt, "nrace")
+		var race []Op
+		for i := 0; i < nrace; i++ {
+			race = append(race, Op{K: rapid.SampledFrom([]string{"delete", "update", "update", "create"}).Draw(rt, "rk"), ID: rapid.SampledFrom(ids).Draw(rt, "rid"), A: rapid.SampledFrom(as).Draw(rt, "ra"), N: rapid.IntRange(0, 9).Draw(rt, "rn")})
+		}
+		skip := rapid.IntRange(0, 5).Draw(rt, "afterKeyCalls")
+		fired := false
+		var arm func(n int)
+		arm = func(n int) {
+			h := func() {
+				if n > 0 {
+					arm(n - 1)
+					return
+				}
+				fired = true
+				done := make(chan struct{})
+				go func() {
+					defer close(done)
+					for _, op := range race {
+						_ = e.apply(w, op)
+					}
+					e.qs.Flush()
+				}()
+				<-done
+			}
+			e.keyHook.Store(&h)
+		}
+		arm(skip)
+		var rerr error
+		tries := 0
+		for tries = 1; tries <= 4; tries++ {
+			if rerr = e.qs.RebuildIndexes(); rerr == nil {
+				break
+			}
+		}
+		e.keyHook.Store(nil)
+		if rerr != nil {
+			rt.Fatalf("RebuildIndexes still fails at the fourth call, with nothing else going on: %v", rerr)
+		}
+		if !fired {
+			for _, op := range race {
+				_ = e.apply(w, op)
+			}
+		}
+		e.qs.Flush()
+		obs, err := observe(e, w, ids)
+		if err != nil {
+			rt.Fatalf("%v", err)
+		}
+		if m := checkIndexes(e, w, obs); m != "" {
+			rt.Fatalf("writes %+v landed while RebuildIndexes was scanning (after %d key computations; RebuildIndexes returned nil at call %d): %s", race, skip, tries, m)
+		}
+		ev.Case(fired, evid.Hash("rebuildrace", w.String(), fmt.Sprint(race), skip), "rebuild-race", fmt.Sprintf("rebuild-calls-%d", tries))
 	})
 }
 
